@@ -41,6 +41,10 @@ var apiTexts = map[string]string{
 	"badvalueCR": "# " + strings.Repeat("a long first line ", 40) + "\r{\r  \"a\": 1 // {min: 2}\r}",
 	"badscanCR":  "{\r  \"a\": 1,\r  \"b\": tru\r}",
 	"badrefLF":   "{\n  \"a\": 1,\n  \"b\": @nowhere\n}",
+	// an heir and its parent as separate type objects: shared by two roots the heir is complete on one of them only
+	"heir":     "{ // {allOf: \"@typeObj\"}\n  \"hk\": 1\n}",
+	"typeObj":  "{\n  \"ok\": 1\n}",
+	"usesHeir": `{"r": @heir}`,
 	// a type with two defective choices: four internal (unnamed) types, the first defect in source order is reported
 	"typeC": "{\n  \"p\": @n1 | @n2,\n  \"q\": @n3 | @n4\n}",
 }
@@ -206,7 +210,27 @@ func apiDefectSources(content string, regs []string) int {
 			hasT = true
 		}
 	}
+	hasObj := false
+	for _, c := range regs {
+		if c == "typeObj" {
+			hasObj = true
+		}
+	}
 	for _, c := range all {
+		if c == "heir" && !hasObj {
+			n++
+		}
+		if c == "usesHeir" {
+			hasHeir := false
+			for _, r := range regs {
+				if r == "heir" {
+					hasHeir = true
+				}
+			}
+			if !hasHeir {
+				n++
+			}
+		}
 		switch c {
 		case "badscan", "badrule", "badvalue", "blank", "comment", "typeC", "badvalueCR", "badscanCR", "badrefLF":
 			n++
@@ -335,6 +359,11 @@ func apiReplay(h apiHist) ([]core.Finding, []string) {
 		pools.emit(`{"ev":"reset","g":0,"buf":0}`)
 	}
 	frozenRegs := map[string][]string{}
+	// objects that have been part of a successfully compiled project (as its root or as one of its types), and the
+	// root they were compiled with: the library expands `allOf` in place, in the nodes the type object shares with
+	// every root it is registered on
+	compiledWith := map[string]string{}
+	typeObjs := map[string][]string{} // root -> objects registered on it
 	for i, st := range h.Hist {
 		if st.Op != "New" {
 			pools.emit(fmt.Sprintf(`{"ev":"call","g":0,"op":"%s","buf":0}`, st.Op))
@@ -358,9 +387,25 @@ func apiReplay(h apiHist) ([]core.Finding, []string) {
 				ref = res
 			}
 			if ref != res {
-				fs = append(fs, core.Finding{Class: "api:history-dependent:" + st.Op + ":" + w.content[st.Obj],
+				class := "api:history-dependent:" + st.Op + ":" + w.content[st.Obj]
+				for _, o := range append([]string{st.Obj}, typeObjs[st.Obj]...) {
+					if r, ok := compiledWith[o]; ok && r != st.Obj {
+						// an object of this project was compiled before as part of another project
+						class = "api:history-dependent:object-compiled-in-another-project-before:" + st.Op
+					}
+				}
+				fs = append(fs, core.Finding{Class: class,
 					What: fmt.Sprintf("step %d %s(%s=%s): result %.200q differs from the result on a fresh object %.200q", i, st.Op, st.Obj, w.content[st.Obj], res, ref)})
 			}
+			if strings.HasPrefix(res, "OK") {
+				for _, o := range append([]string{st.Obj}, typeObjs[st.Obj]...) {
+					if _, ok := compiledWith[o]; !ok {
+						compiledWith[o] = st.Obj
+					}
+				}
+			}
+		} else {
+			typeObjs[st.Obj] = append(typeObjs[st.Obj], st.Arg)
 		}
 		// (ii) held results stable
 		same := true
